@@ -58,6 +58,10 @@ pub enum ProbeCase {
         /// the diagram is built on a store that another diagram was exported from / imported into first
         #[serde(default)]
         reimport: bool,
+        /// only counts that fit a machine word are compared (C13: exactness is claimed for those; what a count that
+        /// does not fit looks like is only compared between the feature builds, C12)
+        #[serde(default)]
+        fits_only: bool,
     },
 }
 
@@ -203,7 +207,7 @@ pub fn run(case: &ProbeCase, memo_models_valid: bool) -> Result<Value, String> {
             let export = serde_json::to_string(&sh.bdd).map_err(|e| e.to_string())?;
             Ok(json!({"steps": steps, "handles": per_handle, "nodes": sh.bdd.nodes.len(), "export": export}))
         }
-        ProbeCase::Deep { vars, spec, memo_first, reimport } => {
+        ProbeCase::Deep { vars, spec, memo_first, reimport, fits_only } => {
             use adf_bdd::datatypes::Term;
             use adf_bdd::obdd::Bdd;
             let v = (*vars as usize).clamp(4, 100);
@@ -259,6 +263,10 @@ pub fn run(case: &ProbeCase, memo_models_valid: bool) -> Result<Value, String> {
                         continue;
                     }
                     let m = bdd.models(*h, memoised);
+                    let fits = want.0 <= usize::MAX as u128 && want.1 <= usize::MAX as u128;
+                    if *fits_only && !fits {
+                        continue;
+                    }
                     if (m.models as u64, m.cmodels as u64) != (clamp(want.0), clamp(want.1)) {
                         return Err(format!(
                             "models({}, memoised={memoised}) = ({}, {}) for a diagram of depth {} with {} models and {} counter-models (counts beyond a machine word saturate at {})",
@@ -268,6 +276,9 @@ pub fn run(case: &ProbeCase, memo_models_valid: bool) -> Result<Value, String> {
                 }
                 for memoised in [false, true] {
                     let p = bdd.paths(*h, memoised);
+                    if *fits_only && !(want.3 <= usize::MAX as u128 && want.4 <= usize::MAX as u128) {
+                        continue;
+                    }
                     if (p.models as u64, p.cmodels as u64) != (clamp(want.3), clamp(want.4)) {
                         return Err(format!("paths({}, memoised={memoised}) = ({}, {}) but the diagram has {} paths to top and {} to bottom", h.value(), p.models, p.cmodels, want.3, want.4));
                     }
